@@ -59,9 +59,9 @@ func NewReport(prop, tier string) *Report {
 		start: time.Now(), exceptions: loadExceptions(), usedExc: map[string]string{}}
 }
 
-func (r *Report) Explain(s string)  { r.Explanation = append(r.Explanation, s) }
-func (r *Report) Assume(s string)   { r.Assumptions = append(r.Assumptions, s) }
-func (r *Report) Advise(s string)   { r.Advisory = append(r.Advisory, s) }
+func (r *Report) Explain(s string)             { r.Explanation = append(r.Explanation, s) }
+func (r *Report) Assume(s string)              { r.Assumptions = append(r.Assumptions, s) }
+func (r *Report) Advise(s string)              { r.Advisory = append(r.Advisory, s) }
 func (r *Report) Note(k string, v interface{}) { r.Analysed[k] = v }
 
 func (r *Report) add(rule, inst, site, verdict, by string) {
@@ -243,21 +243,21 @@ func (r *Report) Finish() int {
 	seed := 0
 	fmt.Sscan(os.Getenv("VERIF_SEED"), &seed)
 	cov := map[string]interface{}{
-		"explanation":      strings.Join(r.Explanation, "\n"),
-		"obligations":      len(r.Obls),
-		"discharged":       disch,
-		"exhaustive":       r.Exhaustive,
-		"samples":          samples,
-		"rules":            rules,
-		"analysed":         r.Analysed,
-		"exceptions_used":  excs,
-		"known_findings":   kf,
-		"advisory":         r.Advisory,
-		"build_configs":    r.Configs,
-		"checker_cmd":      "bin/ankocheck " + r.Prop + " --tier " + r.Tier,
-		"evaluations":      len(r.Obls),
+		"explanation":         strings.Join(r.Explanation, "\n"),
+		"obligations":         len(r.Obls),
+		"discharged":          disch,
+		"exhaustive":          r.Exhaustive,
+		"samples":             samples,
+		"rules":               rules,
+		"analysed":            r.Analysed,
+		"exceptions_used":     excs,
+		"known_findings":      kf,
+		"advisory":            r.Advisory,
+		"build_configs":       r.Configs,
+		"checker_cmd":         "bin/ankocheck " + r.Prop + " --tier " + r.Tier,
+		"evaluations":         len(r.Obls),
 		"distinct_nontrivial": len(distinctInstances(r.Obls)),
-		"rule":             "one evaluation = one obligation (rule instance at a resolved construct); distinct = distinct rule|instance keys",
+		"rule":                "one evaluation = one obligation (rule instance at a resolved construct); distinct = distinct rule|instance keys",
 	}
 	ev := map[string]interface{}{
 		"property_id": r.Prop, "tier": r.Tier, "seed": seed, "level": "other",
